@@ -1772,6 +1772,7 @@ package p9
 //@   ensures err == nil ==> c.messageSize > msgDotLRegistry.largestFixedSize
 
 //@ func roundDown
+//@   requires[C11,C13] align >= 1
 //@   ensures[C11,C13] @never-more result <= p
 //@   ensures[C11,C13] @positive-stays-positive p >= 1 ==> result >= 1
 //@   nopanic
